@@ -45,6 +45,20 @@ pub struct Parser<'source, 'spans> {
     pub spans: &'spans mut Spans,
 }
 
+#[cfg(nlnetlabs_roto_verif)]
+impl<'source> Parser<'source, '_> {
+    /// One step of the parser's token layer (`next`): the span of the token
+    /// it returned, or the location the resulting error cites
+    pub fn verif_next(
+        &mut self,
+    ) -> Result<std::ops::Range<usize>, std::ops::Range<usize>> {
+        match self.next() {
+            Ok((_, span)) => Ok(span.start..span.end),
+            Err(e) => Err(e.location.start..e.location.end),
+        }
+    }
+}
+
 /// # Helper methods
 impl<'source> Parser<'source, '_> {
     /// Move the lexer forward and return the token
